@@ -266,6 +266,14 @@ def clause_problem(states, what, im, rules, mind, pnr):
     return None
 
 
+def case_circuit(case: dict):
+    """the case's circuit: the program "prog" (circuit 'c1'), then — settings cases — the tail
+    "circ" = {"heralds": [...], "param": reflectivity of a final beam splitter on modes 0/1 | None}"""
+    if "circ" in case:
+        return build_circuit([case["prog"]], dict(case["circ"], base=0))[0]
+    return fg.build_impl(case["prog"]).get("c1")
+
+
 def quick_case(ctx: Ctx, c, case: dict) -> list[str]:
     """QuickSampler on the case's circuit / input / rules / photon counting: sample_N_outputs and sample()
     twice under the seed (global generators disturbed in between), clauses, tape replay on the model"""
@@ -282,6 +290,9 @@ def quick_case(ctx: Ctx, c, case: dict) -> list[str]:
         ctx.count("quick:no_valid_output")
         return probs
     cond = [[k.s, fr(float(v))] for k, v in pd.items()]
+    bad = cd_problem(qs, "QuickSampler")
+    if bad:
+        return [bad]
     try:
         disturb(1)
         r1 = counts_of(qs.sample_N_outputs(N, seed=seed_obj))
@@ -304,49 +315,80 @@ def quick_case(ctx: Ctx, c, case: dict) -> list[str]:
             probs.append(f"corr: QuickSampler.sample_N_outputs(N={N}, seed={seed_obj!r}) counts differ from the tape "
                          f"replay on the model")
     if not probs:
+        K = max(3, case.get("K", 3))
         disturb(1)
         pyrandom.seed(iseed)
-        s1 = [qs.sample().s for _ in range(3)]
+        s1 = [qs.sample().s for _ in range(K)]
         disturb(2)
         pyrandom.seed(iseed)
-        s2 = [qs.sample().s for _ in range(3)]
+        s2 = [qs.sample().s for _ in range(K)]
         ctx.count("quick:sample")
         if s1 != s2:
             probs.append("oracle: QuickSampler.sample under the same seed gave different results")
         bad = clause_problem(s1, "QuickSampler.sample", im, rules, None, pnr)
         if bad:
             probs.append(bad)
-        tape = py_tape(iseed, 3)
+        tape = py_tape(iseed, K)
         ms = [ctx.model.call({"op": "samp", "what": "one", "dist": cond, "u": u}) for u in tape]
         if ms != s1 and not probs:
-            probs.append(f"corr: QuickSampler.sample (seed {iseed}) returned {s1}, tape replay gives {ms}")
+            j = next(i for i in range(K) if ms[i] != s1[i])
+            probs.append(f"corr: QuickSampler.sample (seed {iseed}) draw {j} of {K} returned {s1[j]}, tape replay on the "
+                         f"normalised distribution gives {ms[j]}")
     return probs
 
 
 def run_case(ctx: Ctx, case: dict) -> list[str]:
+    """one single-object case; "thr" (optional): the global probability threshold it runs under"""
+    with threshold(case.get("thr")):
+        return _run_case(ctx, case)
+
+
+def _run_case(ctx: Ctx, case: dict) -> list[str]:
     probs: list[str] = []
     known: list[str] = []
-    pool = fg.build_impl(case["prog"])
-    c = pool.get("c1")
+    c = case_circuit(case)
     if c is None or c.input_modes != len(case["input"]):
         return probs
     det, rules, mind, N = case["det"], case["rules"], case["min"], case["N"]
     seed, iseed, npint = seed_parts(case["seed"])
     form = case.get("psform", "object")
+    thr = case.get("thr")
     hout = c.heralds["output"]
     if hout and max(hout.values()) > 1 and not det["pnr"]:
         return probs  # documented SamplerError
     ps = mk_post(form, rules)
-    smp = emulator.Sampler(c, lw.State(case["input"]),
+    smp = emulator.Sampler(c, lw.State(case["input"]), source=mk_src(case.get("src")),
                            detector=emulator.Detector(efficiency=det["eta"], p_dark=det["pdark"],
-                                                      photon_counting=det["pnr"]))
+                                                      photon_counting=det["pnr"]), backend=case.get("backend"))
     pd = smp.probability_distribution
     dist = [[k.s, fr(float(v))] for k, v in pd.items()]
     outher = [[m, n] for m, n in hout.items()]
+    tot = total_of(pd)
+    dev = abs(tot - 1)
+    if thr is not None:
+        ctx.count(f"settings:thr={thr:g}:" + ("distribution_subnormalised" if dev > Fraction(1, 10**12) else
+                                               "distribution_normalised"))
 
     def clauses(states, what):
         return clause_problem(states, what, c.input_modes, rules, mind, det["pnr"])
 
+    def single(K):
+        disturb(single.k)
+        single.k += 1
+        pyrandom.seed(iseed)
+        return [smp.sample().s for _ in range(K)]
+
+    single.k = 1
+    bad = cd_problem(smp, "Sampler")
+    if bad:
+        return [bad]
+    K = case.get("K", 1)
+    s0 = None
+    if K > 1:  # the single-shot method BEFORE the N-inputs method had a chance to renormalise the stored distribution
+        try:
+            s0 = single(K)
+        except Exception as e:  # noqa: BLE001
+            return [f"oracle: Sampler.sample raised {exc_class(e)}"]
     # ---- sample_N_inputs
     c1 = None
     try:
@@ -355,11 +397,16 @@ def run_case(ctx: Ctx, case: dict) -> list[str]:
         disturb(2)
         r1b = smp.sample_N_inputs(N, post_select=ps, min_detection=mind, seed=seed)
         c1 = counts_of(r1)
+        if dev > GUARD:
+            ctx.count("settings:n_inputs:accepted_although_total_deviates_more_than_1%")
     except Exception as e:  # noqa: BLE001
         if npint and isinstance(e, TypeError):
             # sample_N_outputs / QuickSampler accept and convert the same seed (process_random_seed)
             known.append(f"oracle: sample_N_inputs(seed={seed!r}) raises TypeError for a numpy integer seed, which "
                          f"process_random_seed accepts and the N-outputs methods reproduce: {str(e)[:60]!r}")
+        elif dev > GUARD and isinstance(e, ValueError) and "normalisation" in str(e):
+            # the method's own, announced refusal: more than 1% of the probability is missing
+            ctx.count("settings:n_inputs:refuses_total_deviating_more_than_1%")
         else:
             return [f"oracle: sample_N_inputs raised {exc_class(e)}: {str(e)[:80]}"]
     us = [fr(u) for u in np.random.default_rng(iseed).random(N)]
@@ -371,13 +418,26 @@ def run_case(ctx: Ctx, case: dict) -> list[str]:
             probs.append(bad)
         if sum(c1.values()) > N:
             probs.append("oracle: sample_N_inputs returned more samples than inputs")
-        ntape = N * (sum(case["input"]) + sum(hout.values()) + 2 * len(pd and next(iter(pd)).s) + 4)
+        ntape = N * (max(sum(k.s) for k in pd) + 2 * len(pd and next(iter(pd)).s) + 4)
         m1 = ctx.model.call({"op": "samp", "what": "n_inputs", "dist": dist, "det": det_json(det), "outher": outher,
                              "rules": rules, "min": mind, "us": us, "tape": py_tape(tape_seed(case["seed"]), ntape)})
         mc = tally(m1)
         if mc != c1 and not probs:
             probs.append(f"corr: sample_N_inputs(N={N}, seed={seed!r}) counts differ from the tape replay on the model: "
                          f"impl={sorted(c1.items())[:6]} model={sorted(mc.items())[:6]}")
+    # ---- the stored distribution after the N-inputs method (it may renormalise it): same states, same
+    #      normalised values, and the cumulative distribution still is its normalised cumulative sum
+    if not probs:
+        pd2 = smp.probability_distribution
+        tot2 = total_of(pd2)
+        if [k.s for k in pd2] != [k.s for k in pd] or any(
+                abs(float(Fraction(float(pd2[k])) / tot2) - float(Fraction(float(v)) / tot)) > CD_TOL for k, v in pd.items()):
+            probs.append("oracle: Sampler.probability_distribution, read again after sample_N_inputs, is another "
+                         "distribution (after normalisation) than before")
+        else:
+            bad = cd_problem(smp, "Sampler")
+            if bad:
+                probs.append(bad + " — after sample_N_inputs")
     # ---- sample_N_outputs (documented: no dark counts)
     if det["pdark"] == 0 and not probs:
         cond = ctx.model.call({"op": "samp", "what": "outputs_dist", "dist": dist, "pnr": det["pnr"], "outher": outher,
@@ -409,28 +469,41 @@ def run_case(ctx: Ctx, case: dict) -> list[str]:
                 mc2 = tally(m2)
                 if mc2 != c2 and not probs:
                     probs.append(f"corr: sample_N_outputs(N={N}, seed={seed!r}) counts differ from the tape replay on the model")
-    # ---- single-shot sample()
+    # ---- single-shot sample(): K draws under the seed, replayed draw by draw on the NORMALISED distribution
     if not probs:
-        disturb(1)
-        pyrandom.seed(iseed)
         try:
-            s1 = smp.sample().s
-            disturb(2)
-            pyrandom.seed(iseed)
-            s1b = smp.sample().s
+            s1 = single(K)
+            s1b = single(K)
         except Exception as e:  # noqa: BLE001
             return [f"oracle: Sampler.sample raised {exc_class(e)}"]
         if s1 != s1b:
             probs.append("oracle: Sampler.sample under the same seed gave different results")
-        tape = py_tape(iseed, 64)
-        m = ctx.model.call({"op": "samp", "what": "one", "dist": dist, "u": tape[0]})
-        md = ctx.model.call({"op": "samp", "what": "det", "det": det_json(det), "state": m, "tape": tape[1:]})
-        if md["state"] != s1:
-            probs.append(f"corr: Sampler.sample (seed {iseed}) returned {s1}, tape replay gives {md['state']}")
+        elif s0 is not None and s0 != s1:
+            j = next(i for i in range(K) if s0[i] != s1[i])
+            probs.append(f"oracle: Sampler.sample under seed {iseed}, draw {j}: {s0[j]} before and {s1[j]} after the "
+                         f"N-samples methods were used on the same object")
+        per = 1 + max(sum(k.s) for k in pd) + c.n_modes
+        tape = py_tape(iseed, max(64, K * per))
+        pos, ms = 0, []
+        perfect = det["eta"] == 1 and det["pdark"] == 0 and det["pnr"]
+        for _ in range(K):
+            m = ctx.model.call({"op": "samp", "what": "one", "dist": dist, "u": tape[pos]})
+            pos += 1
+            if not perfect or K == 1:
+                md = ctx.model.call({"op": "samp", "what": "det", "det": det_json(det), "state": m,
+                                     "tape": tape[pos:pos + per]})
+                pos += md["used"]
+                m = md["state"]
+            ms.append(m)
+        if ms != s1 and not probs:
+            j = next(i for i in range(K) if ms[i] != s1[i])
+            probs.append(f"corr: Sampler.sample (seed {iseed}) draw {j} of {K} returned {s1[j]}, tape replay on the "
+                         f"normalised distribution gives {ms[j]}")
         if hout:
-            full_ok = all(s1[m_] == n for m_, n in hout.items()) if len(s1) == c.n_modes else True
-            if len(s1) != c.input_modes or not full_ok:
-                probs.append(f"oracle: Sampler.sample returned {s1} on a heralded circuit: heralded modes are not "
+            s_ = s1[0]
+            full_ok = all(s_[m_] == n for m_, n in hout.items()) if len(s_) == c.n_modes else True
+            if len(s_) != c.input_modes or not full_ok:
+                probs.append(f"oracle: Sampler.sample returned {s_} on a heralded circuit: heralded modes are not "
                              f"removed / heralds not checked")
     # ---- the quick sampler on the same circuit / input / rules / photon-counting setting
     if not probs or all("Sampler.sample returned" in p for p in probs):
@@ -463,6 +536,12 @@ def report_case(ctx: Ctx, case: dict, probs: list[str]) -> None:
             ctx.extra["_stat_on_corr"] = ctx.extra.get("_stat_on_corr", 0) + 1
             try:
                 r = stat_case(ctx, case, N=20000)
+            except Exception:  # noqa: BLE001
+                r = None
+        if "Sampler.sample (" in p and ctx.extra.get("_stat_on_corr1", 0) < 3:
+            ctx.extra["_stat_on_corr1"] = ctx.extra.get("_stat_on_corr1", 0) + 1
+            try:
+                r = stat_single(ctx, case, K=20000)
             except Exception:  # noqa: BLE001
                 r = None
         if r is not None:
@@ -717,7 +796,7 @@ def _call(f):
         return "err", exc_class(e)
 
 
-def observe(ctx: Ctx, live: Live, step: dict, idx: int, cnt) -> list[str]:
+def observe(ctx: Ctx, live: Live, step: dict, idx: int, cnt, label: str | None = None) -> list[str]:
     """the observations of one step: long-lived object vs the clauses of the CURRENT configuration, vs a fresh
     object under the same seed, vs the model's replay of the fresh object's distribution"""
     cur, kind = live.cur, live.kind
@@ -732,7 +811,8 @@ def observe(ctx: Ctx, live: Live, step: dict, idx: int, cnt) -> list[str]:
     pnr = cur["det"]["pnr"] if sampler else cur["pnr"]
     det = cur["det"] if sampler else {"eta": 1, "pdark": 0, "pnr": True}
     name = "Sampler" if sampler else "QuickSampler"
-    where = f"history step {idx} ({name} after {[o[0] for o in step.get('set', [])] or 'construction'}, reads {step.get('reads', [])})"
+    where = label or (f"history step {idx} ({name} after {[o[0] for o in step.get('set', [])] or 'construction'}, "
+                      f"reads {step.get('reads', [])})")
     st, pd = _call(lambda: fresh.probability_distribution)
     dist = [[k.s, fr(float(v))] for k, v in pd.items()] if st == "ok" else None
     if st != "ok":
@@ -835,6 +915,13 @@ def observe(ctx: Ctx, live: Live, step: dict, idx: int, cnt) -> list[str]:
 def run_history(ctx: Ctx, hist: dict, cnt=None):
     """-> (problems, Live at the point where the history stopped)"""
     cnt = cnt or (lambda *_: None)
+    with threshold(hist.get("thr")):  # the whole history runs under one value of the global setting
+        if hist["kind"] == "world":
+            return run_world(ctx, hist, cnt), None
+        return _run_history(ctx, hist, cnt)
+
+
+def _run_history(ctx: Ctx, hist: dict, cnt):
     try:
         live = Live(hist)
     except Exception:  # noqa: BLE001  (not constructible, e.g. after shrinking)
@@ -853,6 +940,240 @@ def run_history(ctx: Ctx, hist: dict, cnt=None):
         if probs:
             return probs, live
     return [], live
+
+
+# ---- worlds: several objects built with DEFAULT components side by side
+#
+# world = {"kind": "world", "bases": [prog, ...], "steps": [step, ...]}
+# step  = {"new": name, "type": "sampler" | "quick", "circ": circ, "input": [...]}   built with defaults only
+#       | {"tune": name, "op": op}   IN PLACE through the accessor: ["detector_attr", key, v]  ["source_attr", i, v]
+#                                    ["backend_attr", name]  ["ps_add", rule] (if the default post-selection can
+#                                    take rules);  or a component REPLACED through the setter: ["detector", det]
+#                                    ["source", src]  ["backend", name]  ["pnr", bool]  ["input", state]
+#       | {"use": name, "reads": [method, ...]}
+#       | {"obs": [method, ...], "who": [name, ...] | None (all), "seed": spec, "N": n}
+# After every tune step ALL members' components are read back through the accessors; an observation compares a
+# member with a fresh object built with EXPLICIT components in the configuration the member is supposed to have.
+# A step naming a member that does not exist is skipped, so every sub-list of steps is a world (shrinking).
+
+
+class Member(Live):
+    def __init__(self, bases: list, spec: dict) -> None:  # noqa: super-init-not-called
+        self.kind, self.bases, self.name = spec["type"], bases, spec["new"]
+        self.c, self.par = build_circuit(bases, spec["circ"])
+        inp = fit_input(spec["input"], self.c.input_modes)
+        self.cur = {"circ": json.loads(json.dumps(spec["circ"])), "input": inp, "rules": [], "psform": "object_always"}
+        self.ps = None  # the sampling calls of a Sampler are made with post_select=None as well
+        self.touched = False
+        if self.kind == "sampler":
+            self.cur.update({"det": {"eta": 1, "pdark": 0, "pnr": True}, "src": [1, 1, 1], "backend": "permanent", "min": 0})
+            self.obj = emulator.Sampler(self.c, lw.State(inp))
+        else:
+            self.cur["pnr"] = True
+            self.obj = emulator.QuickSampler(self.c, lw.State(inp))
+
+    def tune(self, op: list) -> bool:
+        cur, obj, a = self.cur, self.obj, op[0]
+        sampler = self.kind == "sampler"
+        if a == "detector_attr" and sampler:
+            setattr(obj.detector, DET_ATTR[op[1]], op[2])
+            cur["det"][op[1]] = op[2]
+        elif a == "source_attr" and sampler:
+            setattr(obj.source, SRC_ATTR[op[1]], op[2])
+            cur["src"][op[1]] = op[2]
+        elif a == "backend_attr" and sampler:
+            obj.backend.backend = op[1]
+            cur["backend"] = op[1]
+        elif a == "ps_add" and not sampler:
+            ps = obj.post_select
+            if not hasattr(ps, "add") or max(op[1][0]) >= self.c.input_modes or \
+                    {m for r in cur["rules"] for m in r[0]} & set(op[1][0]):
+                return False
+            ps.add(tuple(op[1][0]), tuple(op[1][1]))
+            cur["rules"].append(json.loads(json.dumps(op[1])))
+        elif a == "detector" and sampler:
+            cur["det"] = dict(op[1])
+            obj.detector = mk_det(cur["det"])
+        elif a == "source" and sampler:
+            cur["src"] = list(op[1])
+            obj.source = mk_src(cur["src"])
+        elif a == "backend" and sampler:
+            cur["backend"] = op[1]
+            obj.backend = op[1]
+        elif a == "pnr" and not sampler:
+            cur["pnr"] = op[1]
+            obj.photon_counting = op[1]
+        elif a == "input":
+            cur["input"] = fit_input(op[1], self.c.input_modes)
+            obj.input_state = lw.State(cur["input"])
+        else:
+            return False
+        self.touched = True
+        return True
+
+    def components(self):
+        """-> (what the accessors read, what the member's configuration says)"""
+        obj, cur = self.obj, self.cur
+        if self.kind == "sampler":
+            d, sc = obj.detector, obj.source
+            got = {"detector.efficiency": d.efficiency, "detector.p_dark": d.p_dark,
+                   "detector.photon_counting": d.photon_counting, "source.brightness": sc.brightness,
+                   "source.purity": sc.purity, "source.indistinguishability": sc.indistinguishability,
+                   "backend.backend": obj.backend.backend}
+            want = {"detector.efficiency": cur["det"]["eta"], "detector.p_dark": cur["det"]["pdark"],
+                    "detector.photon_counting": cur["det"]["pnr"], "source.brightness": cur["src"][0],
+                    "source.purity": cur["src"][1], "source.indistinguishability": cur["src"][2],
+                    "backend.backend": cur["backend"]}
+        else:
+            rules = [[list(r.as_tuple()[0]), list(r.as_tuple()[1])] for r in getattr(obj.post_select, "rules", [])]
+            got = {"photon_counting": obj.photon_counting, "post_select rules": sorted(rules)}
+            want = {"photon_counting": cur["pnr"], "post_select rules": sorted([list(r[0]), list(r[1])] for r in cur["rules"])}
+        return got, want
+
+    def fresh(self):
+        """a new object in the member's configuration, every component given EXPLICITLY"""
+        cur = self.cur
+        c, _ = build_circuit(self.bases, cur["circ"])
+        if self.kind == "sampler":
+            return c, None, emulator.Sampler(c, lw.State(cur["input"]), source=mk_src(cur["src"]),
+                                             detector=mk_det(cur["det"]), backend=emulator.Backend(cur["backend"]))
+        ps = mk_post("object_always", cur["rules"])
+        return c, ps, emulator.QuickSampler(c, lw.State(cur["input"]), photon_counting=cur["pnr"], post_select=ps)
+
+
+def run_world(ctx: Ctx, hist: dict, cnt) -> list[str]:
+    members: dict[str, Member] = {}
+    for i, step in enumerate(hist["steps"]):
+        if "new" in step:
+            try:
+                members[step["new"]] = Member(hist["bases"], step)
+            except Exception as e:  # noqa: BLE001
+                return [f"oracle: world step {i}: building a {step['type']} with default components raised {exc_class(e)}"]
+            cnt(f"world:new:{step['type']}" + (":after_a_tuning" if any(m.touched for m in members.values()) else ""))
+        elif "tune" in step:
+            m = members.get(step["tune"])
+            if m is None:
+                continue
+            try:
+                ok = m.tune(step["op"])
+            except Exception as e:  # noqa: BLE001
+                return [f"oracle: world step {i}: tuning {step['op']} of {m.name} raised {exc_class(e)}: {str(e)[:80]}"]
+            cnt(f"world:tune:{step['op'][0]}" + ("" if ok else ":skipped"))
+            for o in members.values():  # read every member's components back
+                got, want = o.components()
+                diff = [k for k in want if got[k] != want[k]]
+                if diff:
+                    k = diff[0]
+                    return [f"oracle: world step {i}: after {step['op']} on {m.name} only, the {o.kind} {o.name!r} "
+                            f"({'built with default components and never touched' if not o.touched else 'itself tuned before'}) "
+                            f"reads {k} = {got[k]!r}, its own configuration says {want[k]!r}: default components are "
+                            f"shared between objects"]
+        elif "use" in step:
+            m = members.get(step["use"])
+            if m is None:
+                continue
+            for r in step.get("reads", []):
+                m.read(r)
+                cnt(f"world:read:{r}")
+        elif "obs" in step:
+            for name in step.get("who") or list(members):
+                m = members.get(name)
+                if m is None:
+                    continue
+                cnt("world:observe:" + ("tuned_member" if m.touched else "default_member"))
+                st = dict(step, obs=[w for w in step["obs"] if w in OBS[m.kind]])
+                others = [o.name for o in members.values() if o.touched and o is not m]
+                label = (f"world step {i}: {m.kind} {m.name!r} ({'tuned itself' if m.touched else 'default components, never touched'}"
+                         f"; tuned in place elsewhere: {others})")
+                probs = observe(ctx, m, st, i, cnt, label=label)
+                if probs:
+                    return probs
+    return []
+
+
+def world_corpus() -> list[dict]:
+    rng = pyrandom.Random("c07-world-corpus")
+    u4a, u4b = gen_base(rng, 4, "unitary"), gen_base(rng, 4, "unitary")
+    c0 = {"base": 0, "heralds": [], "param": None}
+    c1 = {"base": 1, "heralds": [], "param": None}
+    ch = {"base": 1, "heralds": [[1, 0, 2]], "param": None}
+    all_s = ["n_inputs", "n_outputs", "sample"]
+
+    def new(name, typ, circ, inp):
+        return {"new": name, "type": typ, "circ": circ, "input": inp}
+
+    def obs(seed=11, who=None, N=60):
+        return {"obs": list(all_s), "who": who, "seed": seed, "N": N}
+
+    ws = []
+    # the default detector of one sampler is tuned in place: efficiency, dark counts, threshold detection
+    for op in (["detector_attr", "eta", 0.4], ["detector_attr", "pdark", 0.25], ["detector_attr", "pnr", False]):
+        ws.append({"kind": "world", "bases": [u4a, u4b], "steps": [
+            new("early", "sampler", c1, [1, 1, 0, 0]), {"use": "early", "reads": ["n_inputs"]},
+            new("first", "sampler", c0, [1, 0, 1, 0] if op[1] != "pnr" else [2, 0, 1, 0]), {"tune": "first", "op": op},
+            {"use": "first", "reads": ["n_inputs", "sample"]},
+            new("late", "sampler", ch if op[1] == "eta" else c1, [2, 0, 0, 0]), obs()]})
+    # default source and default backend
+    ws.append({"kind": "world", "bases": [u4a, u4b], "steps": [
+        new("a", "sampler", c0, [1, 0, 1, 0]), new("b", "sampler", c1, [1, 1, 0, 0]), obs(who=["b"]),
+        {"tune": "a", "op": ["source_attr", 0, 0.8]}, obs(seed=["int", 0]),
+        {"tune": "a", "op": ["source_attr", 2, 0.7]}, new("c", "sampler", c0, [0, 1, 1, 0]), obs(who=["b", "c"])]})
+    ws.append({"kind": "world", "bases": [u4a, u4b], "steps": [
+        new("a", "sampler", c0, [1, 0, 1, 0]), new("b", "sampler", c0, [1, 0, 1, 0]),
+        {"tune": "a", "op": ["backend_attr", "slos"]}, new("c", "sampler", c1, [1, 0, 1, 0]), obs(),
+        {"tune": "b", "op": ["detector", {"eta": 0.5, "pdark": 0, "pnr": True}]},
+        {"tune": "b", "op": ["detector_attr", "eta", 0.9]}, {"tune": "c", "op": ["source", [1, 0.9, 1]]}, obs(seed=5)]})
+    # quick samplers: default post-selection / photon counting
+    ws.append({"kind": "world", "bases": [u4a, u4b], "steps": [
+        new("q1", "quick", c0, [1, 0, 1, 0]), new("q2", "quick", c1, [2, 0, 1, 0]), {"use": "q2", "reads": ["n_outputs"]},
+        {"tune": "q1", "op": ["ps_add", [[0], [0]]]}, {"tune": "q1", "op": ["pnr", False]},
+        new("q3", "quick", ch, [1, 0, 1]), new("s", "sampler", c1, [2, 0, 1, 0]), obs()]})
+    return ws
+
+
+def gen_world(ctx: Ctx, rng) -> dict:
+    n = rng.choice([3, 4, 4])
+    bases = [gen_base(rng, n), gen_base(rng, n, "unitary")]
+    names = ["a", "b", "c", "d"]
+    kinds = rng.choice([["sampler"] * 4, ["sampler"] * 4, ["quick"] * 4, ["sampler", "quick", "sampler", "quick"]])
+
+    def new(i):
+        hs = gen_heralds(rng, n, 1) if rng.random() < 0.3 else []
+        return {"new": names[i], "type": kinds[i], "circ": {"base": rng.randrange(2), "heralds": hs, "param": None},
+                "input": fg.rand_state(rng, n - len(hs), rng.choice([1, 2, 2, 3]) - sum(h[0] for h in hs) // 2)}
+
+    def tune(i):
+        if kinds[i] == "sampler":
+            op = rng.choice([["detector_attr", "eta", rng.choice([0.4, 0.9, 0.5])], ["detector_attr", "pdark", 0.25],
+                             ["detector_attr", "pnr", False], ["source_attr", 0, 0.8], ["source_attr", 1, 0.9],
+                             ["source_attr", 2, 0.7], ["backend_attr", "slos"], ["detector", dict(rng.choice(DETS[2:]))],
+                             ["source", rng.choice(SRCS[2:])], ["backend", "slos"]])
+        else:
+            op = rng.choice([["ps_add", [[rng.randrange(2)], [0, 1]]], ["pnr", False], ["pnr", False],
+                             ["input", fg.rand_state(rng, n, 2)]])
+        return {"tune": names[i], "op": op}
+
+    def obs(who=None):
+        ms = ["n_inputs", "n_outputs", "sample"]
+        rng.shuffle(ms)
+        return {"obs": ms, "who": who, "seed": rng.choice(SEED_POOL) if rng.random() < 0.3 else rng.randrange(10**6),
+                "N": rng.choice([1, 40, 40, 120])}
+
+    steps = [new(0), new(1)]
+    if rng.random() < 0.5:
+        steps.append({"use": names[rng.randrange(2)], "reads": rng.sample(READS[kinds[0]][:5], 2)})
+    if rng.random() < 0.3:
+        steps.append(obs())
+    steps.append(tune(0))
+    if rng.random() < 0.5:
+        steps.append(tune(0))
+    if rng.random() < 0.6:
+        steps.append({"use": names[0], "reads": rng.sample(READS[kinds[0]][:5], 2)})
+    steps.append(new(2))
+    steps.append(obs())
+    if rng.random() < 0.6:
+        steps += [tune(rng.choice([1, 2])), new(3), obs()]
+    return {"kind": "world", "bases": bases, "steps": steps}
 
 
 # ---- generation
@@ -1042,7 +1363,10 @@ def gen_history(ctx: Ctx, rng, kind: str) -> dict:
         steps.append({"set": step_ops() if i else [], "reads": reads if i else [], "obs": obs,
                       "seed": rng.choice(SEED_POOL) if rng.random() < 0.3 else rng.randrange(10**6),
                       "N": rng.choice([0, 1, 40, 40, 40, 120, 120, 120])})
-    return {"kind": kind, "bases": bases, "init": init, "steps": steps}
+    hist = {"kind": kind, "bases": bases, "init": init, "steps": steps}
+    if rng.random() < 0.25:
+        hist["thr"] = rng.choice(THRESHOLDS)  # the global setting, constant during the history
+    return hist
 
 
 def corpus_histories() -> list[dict]:
@@ -1155,8 +1479,11 @@ def check_history(ctx: Ctx, hist: dict, tag: str):
         sp, _ = run_history(ctx, small)
         if not sp or not sp[0].startswith(cls):
             small, sp = hist, probs
+        if sp[0][:70] != p[:70]:  # (state shared between objects can outlive the history it was first seen in)
+            sp = [sp[0] + f" [before shrinking, in a history of {len(hist['steps'])} steps: {p[:400]}]", *sp[1:]]
         if cls == "oracle":
-            ctx.violation(sp[0], {"history": small, "problems": sp, "steps_before_shrinking": len(hist["steps"])},
+            ctx.violation(sp[0], {"history": small, "problems": sp, "steps_before_shrinking": len(hist["steps"]),
+                                  "history_before_shrinking": hist if small is not hist else None},
                           sig={"kind": "history", "object": hist["kind"]})
         else:
             ctx.disagreement(sp[0], {"history": small, "problems": sp})
@@ -1164,7 +1491,7 @@ def check_history(ctx: Ctx, hist: dict, tag: str):
 
 
 def history_probe(ctx: Ctx, rng) -> None:
-    for h in corpus_histories():
+    for h in corpus_histories() + world_corpus():
         if ctx.out_of_time():
             return
         check_history(ctx, h, "corpus")
@@ -1172,6 +1499,8 @@ def history_probe(ctx: Ctx, rng) -> None:
         if ctx.out_of_time():
             return
         check_history(ctx, gen_history(ctx, rng, "sampler" if i % 2 == 0 else "quick"), "generated")
+        if i % 4 == 0:
+            check_history(ctx, gen_world(ctx, rng), "generated")
 
 
 def quick_ps_mutation_probe(ctx: Ctx, rng) -> None:
@@ -1270,6 +1599,7 @@ def exact_inputs_dist(ctx: Ctx, pd, det, hout, rules, mind) -> dict:
     """exact distribution of what sample_N_inputs returns per input (model kernel on every output state,
     then heralding, herald removal, post-selection, min_detection); the rest is the rejected fraction"""
     exp: dict = {}
+    tot = float(sum(pd.values()))  # the stored distribution need not be normalised (probability threshold)
     for k, p in pd.items():
         ker = ctx.model.call({"op": "samp", "what": "kernel", "det": det_json(det), "state": k.s})
         for t, q in ker:
@@ -1277,7 +1607,7 @@ def exact_inputs_dist(ctx: Ctx, pd, det, hout, rules, mind) -> dict:
                 continue
             u = tuple(x for i, x in enumerate(t) if i not in hout)
             if rule_ok(rules, list(u)) and sum(u) >= mind:
-                exp[u] = exp.get(u, 0.0) + float(p) * float(Fraction(q))
+                exp[u] = exp.get(u, 0.0) + float(p) / tot * float(Fraction(q))
     return exp
 
 
@@ -1309,17 +1639,19 @@ def chi2_verdict(obs: dict, exp: dict, N: int, reject_bucket: bool):
 def stat_case(ctx: Ctx, case: dict, N: int = 6000):
     """the statistical oracle on one case: frequencies of sample_N_inputs vs the exact detected / heralded /
     post-selected distribution -> None | (what, details)"""
-    pool = fg.build_impl(case["prog"])
-    c = pool["c1"]
+    c = case_circuit(case)
     det, rules, mind = case["det"], case["rules"], case["min"]
     hout = c.heralds["output"]
     if hout and max(hout.values()) > 1 and not det["pnr"]:
         return None
-    smp = emulator.Sampler(c, lw.State(case["input"]),
-                           detector=emulator.Detector(efficiency=det["eta"], p_dark=det["pdark"],
-                                                      photon_counting=det["pnr"]))
-    pd = smp.probability_distribution
-    res = smp.sample_N_inputs(N, post_select=make_ps(rules), min_detection=mind, seed=seed_parts(case["seed"])[1])
+    with threshold(case.get("thr")):
+        smp = emulator.Sampler(c, lw.State(case["input"]), source=mk_src(case.get("src")),
+                               detector=emulator.Detector(efficiency=det["eta"], p_dark=det["pdark"],
+                                                          photon_counting=det["pnr"]), backend=case.get("backend"))
+        pd = dict(smp.probability_distribution)
+        if abs(total_of(pd) - 1) > GUARD:
+            return None  # sample_N_inputs refuses (counted in run_case); the single-shot statistics cover these
+        res = smp.sample_N_inputs(N, post_select=make_ps(rules), min_detection=mind, seed=seed_parts(case["seed"])[1])
     obs = counts_of(res)
     exp = exact_inputs_dist(ctx, pd, det, hout, rules, mind)
     acc = sum(exp.values())
@@ -1335,6 +1667,141 @@ def stat_case(ctx: Ctx, case: dict, N: int = 6000):
             f"(chi2={v[1]:.1f}, dof={v[2]}, p={v[3]:.2e}; accepted fraction {nobs / N:.4f} vs {acc:.4f})",
             {"case": case, "observed": sorted(obs.items()), "expected": sorted((k, N * v_) for k, v_ in exp.items()),
              "kind": "stat-frequencies"})
+
+
+def stat_single(ctx: Ctx, case: dict, K: int = 2000):
+    """the statistical oracle for the single-shot methods on one case (under the case's probability threshold):
+    frequencies of Sampler.sample() vs the NORMALISED stored distribution with the exact detector kernel applied
+    (states as returned — F13: heralded modes still in place), and of QuickSampler.sample() vs its normalised
+    distribution -> None | (what, details)"""
+    det, rules = case["det"], case["rules"]
+    seed = seed_parts(case["seed"])[1] % 10**6
+    with threshold(case.get("thr")):
+        c = case_circuit(case)
+        tests = []
+        smp = emulator.Sampler(c, lw.State(case["input"]), source=mk_src(case.get("src")),
+                               detector=emulator.Detector(efficiency=det["eta"], p_dark=det["pdark"],
+                                                          photon_counting=det["pnr"]), backend=case.get("backend"))
+        pd = smp.probability_distribution
+        exp = exact_inputs_dist(ctx, pd, det, {}, [], 0)
+        pyrandom.seed(seed + 1)
+        tests.append(("Sampler.sample", tally(smp.sample().s for _ in range(K)), exp, float(sum(pd.values()))))
+        try:
+            qs = emulator.QuickSampler(c, lw.State(case["input"]), photon_counting=det["pnr"],
+                                       post_select=mk_post(case.get("psform", "object"), rules))
+            qpd = qs.probability_distribution
+        except Exception:  # noqa: BLE001
+            qpd = None
+        if qpd:
+            qt = float(sum(qpd.values()))
+            pyrandom.seed(seed + 2)
+            tests.append(("QuickSampler.sample", tally(qs.sample().s for _ in range(K)),
+                          {tuple(k.s): float(v) / qt for k, v in qpd.items()}, qt))
+    for meth, obs, exp, tot in tests:
+        ctx.count("stat_tests:single_shot")
+        v = chi2_verdict(obs, exp, K, False)
+        if v is None or v[0] == "ok":
+            continue
+        cfg = f"(stored distribution sums to {tot!r}, sampler_probability_threshold={case.get('thr', THR_DEFAULT)!r})"
+        if v[0] == "support":
+            return (f"oracle: {meth} returned {list(v[1])}, a state of probability zero under the exact distribution {cfg}",
+                    {"case": case, "state": list(v[1]), "method": meth, "kind": "stat-single-support"})
+        return (f"oracle: empirical frequencies of {K} x {meth} deviate from the exact normalised distribution "
+                f"(chi2={v[1]:.1f}, dof={v[2]}, p={v[3]:.2e}) {cfg}",
+                {"case": case, "method": meth, "observed": sorted(obs.items()),
+                 "expected": sorted((k, K * x) for k, x in exp.items()), "kind": "stat-single-frequencies"})
+    return None
+
+
+# --------------------------------------------------------------------------- the global settings as a dimension
+
+
+def truncated(case: dict) -> bool:
+    """does the case's threshold remove anything (Sampler or QuickSampler)?"""
+    def sizes():
+        c = case_circuit(case)
+        out = []
+        try:
+            pd = emulator.Sampler(c, lw.State(case["input"]), source=mk_src(case.get("src")),
+                                  backend=case.get("backend")).probability_distribution
+            out.append(len(pd))
+        except Exception:  # noqa: BLE001
+            out.append(None)
+        try:
+            out.append(len(emulator.QuickSampler(c, lw.State(case["input"])).probability_distribution))
+        except Exception:  # noqa: BLE001
+            out.append(None)
+        return out
+
+    try:
+        with threshold(case["thr"]):
+            a = sizes()
+        return a != sizes()
+    except Exception:  # noqa: BLE001
+        return False
+
+
+def gen_settings_case(ctx: Ctx, rng, thr: float) -> dict:
+    """a single-object case whose output distribution has members around the threshold: exact unitaries / beam
+    splitter meshes (lossless or lossy, both backends), optionally a final beam splitter whose reflectivity is of
+    the order of the threshold, heralds, any detector / source / post-selection / min_detection / seed"""
+    case = None
+    for _ in range(8):
+        n = rng.choice([3, 4, 4, 5])
+        prog = gen_base(rng, n, rng.choice(["unitary", "unitary", "unitary", "bs", "bs", "lossy"]))
+        hs = gen_heralds(rng, n, 1) if rng.random() < 0.35 else []
+        im = n - len(hs)
+        nph = max(1, min(rng.choice([2, 2, 3, 3]), 4 - sum(h[0] for h in hs)))
+        small = rng.choice([thr / 3, thr / 30, 3 * thr])
+        param = rng.choice([None, None, small, 1 - small, 0.25])
+        case = {"prog": prog, "circ": {"heralds": hs, "param": param}, "thr": thr, "input": fg.rand_state(rng, im, nph),
+                "det": dict(rng.choice(DETS)), "rules": gen_rules_h(rng, im, nph), "min": rng.choice([0, 0, 1]),
+                "seed": gen_seed(rng), "N": rng.choice([50, 200]), "psform": rng.choice(["object", "object", "function"]),
+                "src": rng.choice(SRCS) if rng.random() < 0.25 else None,
+                "backend": rng.choice(["permanent", "permanent", "slos"]), "K": 48}
+        if truncated(case):
+            break
+    return case
+
+
+def settings_corpus() -> list[dict]:
+    """directed cases (fixed, independent of VERIF_SEED): for every threshold a perfect-detector and an
+    imperfect-detector case on a lossless circuit in which the threshold is known to remove states"""
+    rng = pyrandom.Random("c07-settings-corpus")
+    out = []
+    for thr in THRESHOLDS:
+        for det in (DETS[0], DETS[3], DETS[7]):
+            for _ in range(60):
+                n = rng.choice([4, 5])
+                small = thr / 3
+                case = {"prog": gen_base(rng, n, "unitary"), "thr": thr, "det": dict(det), "rules": [], "min": 0,
+                        "circ": {"heralds": [], "param": rng.choice([small, 1 - small]) if thr < 1e-3 else None},
+                        "input": fg.rand_state(rng, n, 3 if thr < 1e-2 else 2), "seed": rng.choice([0, 7, ["float", 1.0]]),
+                        "N": 50, "psform": "object", "src": None, "backend": "permanent", "K": 48}
+                if len(set(case["input"])) > 1 and truncated(case):
+                    out.append(case)
+                    break
+    return out
+
+
+def settings_probe(ctx: Ctx, rng) -> None:
+    cases = [(k, "corpus") for k in settings_corpus()]
+    for thr in THRESHOLDS:
+        cases += [(gen_settings_case(ctx, rng, thr), "generated") for _ in range(ctx.n(5, 60))]
+    for case, tag in cases:
+        if ctx.out_of_time():
+            return
+        probs = run_case(ctx, case)
+        ctx.count(f"settings:{tag}")
+        ctx.count(f"settings:thr={case['thr']:g}")
+        ctx.case(json.dumps(case), True)
+        report_case(ctx, case, probs)
+        if not probs or all("heralded circuit" in p or "numpy integer seed" in p for p in probs):
+            r = stat_single(ctx, case)
+            if r is not None:
+                ctx.violation(r[0], r[1], sig={"kind": r[1]["kind"]})
+        if lw.settings.sampler_probability_threshold != THR_DEFAULT:
+            raise RuntimeError("the global probability threshold was not restored")
 
 
 def stat_test(ctx: Ctx, rng) -> None:
@@ -1359,57 +1826,67 @@ def stat_history(ctx: Ctx, rng) -> None:
             break
         kind = "sampler" if i % 2 == 0 else "quick"
         hist = gen_history(ctx, rng, kind)
-        probs, live = run_history(ctx, hist)
-        if probs or live is None:
-            continue  # reported by history_probe's own stream when it meets it; here only clean histories
-        cur = live.cur
-        cref, psf, fresh = live.fresh()
-        try:
-            pd = fresh.probability_distribution
-        except Exception:  # noqa: BLE001
-            continue
-        hout, rules = cref.heralds["output"], cur["rules"]
-        ctx.case(("stat-history", json.dumps(hist)), True)
-        ctx.count(f"stat_tests:history:{kind}")
-        tests = []
-        if kind == "sampler":
-            if hout and max(hout.values()) > 1 and not cur["det"]["pnr"]:
-                continue
-            N = 6000
-            obs = counts_of(live.obj.sample_N_inputs(N, post_select=live.ps, min_detection=cur["min"], seed=rng.randrange(10**6)))
+        with threshold(hist.get("thr")):  # the long-lived object is sampled under the history's setting
+            _stat_history_one(ctx, rng, hist, kind)
+
+
+def _stat_history_one(ctx: Ctx, rng, hist: dict, kind: str) -> None:
+    probs, live = _run_history(ctx, hist, lambda *_: None)
+    if probs or live is None:
+        return  # reported by history_probe's own stream when it meets it; here only clean histories
+    cur = live.cur
+    cref, psf, fresh = live.fresh()
+    try:
+        pd = fresh.probability_distribution
+    except Exception:  # noqa: BLE001
+        return
+    hout, rules = cref.heralds["output"], cur["rules"]
+    ctx.case(("stat-history", json.dumps(hist)), True)
+    ctx.count(f"stat_tests:history:{kind}")
+    tests = []
+    if kind == "sampler":
+        if hout and max(hout.values()) > 1 and not cur["det"]["pnr"]:
+            return
+        N = 6000
+        if abs(total_of(pd) - 1) <= GUARD:  # otherwise sample_N_inputs refuses (checked in the history itself)
+            obs = counts_of(live.obj.sample_N_inputs(N, post_select=live.ps, min_detection=cur["min"],
+                                                     seed=rng.randrange(10**6)))
             exp = exact_inputs_dist(ctx, pd, cur["det"], hout, rules, cur["min"])
             tests.append(("Sampler.sample_N_inputs", obs, exp, N, True))
-            if not hout:
-                K = 2000
-                pyrandom.seed(rng.randrange(10**6))
-                obs1 = tally(live.obj.sample().s for _ in range(K))
-                exp1 = exact_inputs_dist(ctx, pd, cur["det"], {}, [], 0)
-                tests.append(("Sampler.sample", obs1, exp1, K, True))
-        else:
-            K = 3000
+        if not hout:
+            K = 2000
             pyrandom.seed(rng.randrange(10**6))
-            obs = tally(live.obj.sample().s for _ in range(K))
-            tot = float(sum(pd.values()))
-            exp = {tuple(k.s): float(v) / tot for k, v in pd.items()}
-            tests.append(("QuickSampler.sample", obs, exp, K, False))
-            obs2 = counts_of(live.obj.sample_N_outputs(K, seed=rng.randrange(10**6)))
-            tests.append(("QuickSampler.sample_N_outputs", obs2, exp, K, False))
-        for meth, obs, exp, N, rej in tests:
-            v = chi2_verdict(obs, exp, N, rej)
-            if v is None or v[0] == "ok":
-                continue
-            what = (f"returned {list(v[1])}, a state of probability zero under" if v[0] == "support" else
-                    f"frequencies deviate (chi2={v[1]:.1f}, dof={v[2]}, p={v[3]:.2e}) from")
-            ctx.violation(f"oracle: {meth} on a long-lived object at the end of a history: {what} the exact distribution of "
-                          f"the current configuration", {"history": hist, "method": meth, "observed": sorted(obs.items()),
-                                                         "expected": sorted((k, N * x) for k, x in exp.items())},
-                          sig={"kind": "stat-history", "method": meth})
-            break
+            obs1 = tally(live.obj.sample().s for _ in range(K))
+            exp1 = exact_inputs_dist(ctx, pd, cur["det"], {}, [], 0)
+            tests.append(("Sampler.sample", obs1, exp1, K, True))
+    else:
+        K = 3000
+        pyrandom.seed(rng.randrange(10**6))
+        obs = tally(live.obj.sample().s for _ in range(K))
+        tot = float(sum(pd.values()))
+        exp = {tuple(k.s): float(v) / tot for k, v in pd.items()}
+        tests.append(("QuickSampler.sample", obs, exp, K, False))
+        obs2 = counts_of(live.obj.sample_N_outputs(K, seed=rng.randrange(10**6)))
+        tests.append(("QuickSampler.sample_N_outputs", obs2, exp, K, False))
+    for meth, obs, exp, N, rej in tests:
+        v = chi2_verdict(obs, exp, N, rej)
+        if v is None or v[0] == "ok":
+            continue
+        what = (f"returned {list(v[1])}, a state of probability zero under" if v[0] == "support" else
+                f"frequencies deviate (chi2={v[1]:.1f}, dof={v[2]}, p={v[3]:.2e}) from")
+        ctx.violation(f"oracle: {meth} on a long-lived object at the end of a history: {what} the exact distribution of "
+                      f"the current configuration", {"history": hist, "method": meth, "observed": sorted(obs.items()),
+                                                     "expected": sorted((k, N * x) for k, x in exp.items())},
+                      sig={"kind": "stat-history", "method": meth})
+        break
 
 
 def run(ctx: Ctx) -> None:
     ctx.rule = ("generated circuits/inputs, detector settings (efficiency, p_dark, photon counting), post-selection "
-                "rules (objects and functions), min_detection, seeds (random and the boundary pool) and sample counts; "
+                "rules (objects and functions), min_detection, seeds (random and the boundary pool) and sample counts; the "
+                "global probability threshold raised to 1e-6..5e-2 (sub-normalised stored distributions: normalised "
+                "cumulative distribution, tape replay, single-shot chi-square); worlds of objects built with default "
+                "components, one tuned in place, all compared with explicitly built fresh objects; "
                 "tape replay of sample_N_inputs / sample_N_outputs / sample of the Sampler and the QuickSampler on the "
                 "model + clause checks + chi-square tests; histories on one long-lived Sampler / QuickSampler "
                 "(sample, reconfigure, read, sample) against the current configuration's clauses, a fresh object and the "
@@ -1417,7 +1894,17 @@ def run(ctx: Ctx) -> None:
                 "distinct configuration / history")
     contract_selftest(ctx)
     rng = ctx.rng
+    try:
+        _run_streams(ctx, rng)
+    finally:
+        lw.settings.sampler_probability_threshold = THR_DEFAULT  # whatever happened: other streams see the default
+    for k in [k for k in ctx.extra if k.startswith("_")]:
+        del ctx.extra[k]
+
+
+def _run_streams(ctx: Ctx, rng) -> None:
     seed_corpus(ctx, rng)
+    settings_probe(ctx, rng)
     history_probe(ctx, rng)
     N = ctx.n(70, 2000)
     done = 0
@@ -1439,8 +1926,6 @@ def run(ctx: Ctx) -> None:
     quick_ps_mutation_probe(ctx, rng)
     stat_test(ctx, rng)
     stat_history(ctx, rng)
-    for k in [k for k in ctx.extra if k.startswith("_")]:
-        del ctx.extra[k]
 
 
 def replay(ctx: Ctx, path: str) -> None:
